@@ -602,3 +602,56 @@ func I8(rc *RC) {
 		rc.S.Ok("I8", key, pos, fmt.Sprintf("%d flag combinations agree", len(ks)))
 	}
 }
+
+// I9: block bookkeeping of the multi-iterator constructor. NewMultIterator keeps one stride
+// block per distinct stride pattern; `offset` is advanced (to maxDims*nBlocks, then nBlocks++)
+// only when a new block is created, so the strides at `offset` always belong to block
+// nBlocks-1. The flat iterator built from those strides must be stored in that block's slot:
+// any other index (the pattern's own block id, the operand index) pairs a block with the
+// strides of another one as soon as a pattern repeats non-adjacently.
+func I9(rc *RC) {
+	rc.S.Declare("I9", "multi-iterator blocks: in NewMultIterator the flat iterator built from the strides at the current block offset is stored in slot nBlocks-1, the block that offset belongs to", 1)
+	fi := anchor(rc, "I9", "tensor.NewMultIterator")
+	if fi == nil {
+		return
+	}
+	pos := rc.P.Pos(fi.Decl.Pos())
+	c := ir.NewCanon(rc.P.Fset, fi.Pkg.TypesInfo, ir.Options{ParamNames: true, KeepNames: true, NoSubst: true})
+	nodes := flatten(c.Func(fi.Decl))
+	// the block counter: the variable V with `offset = maxDims * V` and `V = V + 1`
+	counter, offset := "", ""
+	for _, n := range nodes {
+		if n.Kind == "let" || n.Kind == "store" {
+			if m := regexp.MustCompile(`^\((%\w+) \+ 1\)$`).FindStringSubmatch(n.Value); m != nil && m[1] == n.Target {
+				for _, k := range nodes {
+					if (k.Kind == "let" || k.Kind == "store") && offset == "" && ldIdent.FindString(k.Target) == k.Target && (strings.Contains(k.Value, "* "+n.Target+")") || strings.Contains(k.Value, "("+n.Target+" * ")) {
+						counter, offset = n.Target, k.Target
+					}
+				}
+			}
+		}
+	}
+	if counter == "" {
+		rc.S.Undec("I9", fi.Key, pos, "block counter / offset pair not identified")
+		return
+	}
+	found := false
+	var bad []string
+	for _, n := range nodes {
+		if (n.Kind == "store" || n.Kind == "let") && strings.Contains(n.Target, ".fitArr[") && strings.Contains(n.Value, "newFlatIterator(") {
+			found = true
+			idx := n.Target[strings.Index(n.Target, ".fitArr[")+len(".fitArr[") : len(n.Target)-1]
+			if idx != "("+counter+" - 1)" {
+				bad = append(bad, fmt.Sprintf("the iterator over the strides at %s is stored in slot [%s], want [%s - 1]", offset, idx, counter))
+			}
+		}
+	}
+	switch {
+	case !found:
+		rc.S.Undec("I9", fi.Key, pos, "no store of a new flat iterator into fitArr found")
+	case len(bad) > 0:
+		rc.S.Viol("I9", fi.Key, pos, strings.Join(bad, "; ")).Sig = firstWords(bad)
+	default:
+		rc.S.Ok("I9", fi.Key, pos, "stored in slot "+counter+"-1, the block of "+offset)
+	}
+}
